@@ -1,8 +1,10 @@
 // T-corr harness for C13 (unit level): drives the real quill::detail::TimestampFormatter (and
 // through it two StringFromTime instances) and, separately, the real libc.
 //
-// case "time <local> <zlen> zone.. <plen> pattern.. <n> ns_1..ns_n [oracle table ignored]"
-//   -> "0 code" when the constructor throws (1 = specifiers mutually exclusive, 2 = %X, 3 = other)
+// case "time <strict> <local> <zlen> zone.. <plen> pattern.. <n> ns_1..ns_n [oracle table ignored]"
+//   (<strict> is the model's code-variant flag, ignored here)
+//   -> "0 code" when the constructor throws (1 = specifiers mutually exclusive / used more than once,
+//      2 = %X or another conversion that "is not currently supported", 3 = other)
 //      else "1" then per instant "<len> bytes.." (what format_timestamp returned)
 // case "timeo <local> <zlen> zone.. <nf> {<flen> fmt..}*nf <n> t_1..t_n"      (libc oracle)
 //   -> for every format, for every instant: "<len> bytes.." of gmtime_r/localtime_r + strftime;
@@ -72,7 +74,7 @@ int main()
   while (vh::read_case(model, a))
   {
     std::vector<vh::u64> out;
-    size_t i = 0;
+    size_t i = model == "time" ? 1 : 0;
     bool local = i < a.size() && a[i++] != 0;
     std::string zone = take_str(a, i);
     set_zone(zone);
@@ -96,7 +98,8 @@ int main()
       {
         out.clear(); out.push_back(0);
         std::string w = e.what();
-        out.push_back(w.find("mutually exclusive") != std::string::npos ? 1 : (w.find("%X") != std::string::npos ? 2 : 3));
+        bool const excl = w.find("mutually exclusive") != std::string::npos || w.find("only be used once") != std::string::npos;
+        out.push_back(excl ? 1 : (w.find("not currently supported") != std::string::npos ? 2 : 3));
       }
     }
     else if (model == "timeo")
